@@ -126,6 +126,25 @@ def c15(run):
     run.exhaustive = True
 
 
+# ------------------------------------------------------------------------------------------------ C06
+def c06(run):
+    run.rule = ("GEN: (bytes) every byte string of length <= L over a 22-byte alphabet reaching every lexer state (L=3 quick, 4 thorough); (tokens) every token string of length <= 3 "
+                "over 25 classes and every sentence of <= 4 tokens with every single-token mutation; (literals) 23 malformed / out-of-range literal spellings x 10 syntactic positions; "
+                "(damage) 4 base programs with every byte replaced by each of 16 bytes, deleted or doubled; (scale) 11 shape families at limit-1, limit, limit+1 of the operand stack, "
+                "block nesting, variable count and jump distance, and out-of-domain operands (negative / 2^20 repeat counts, every division by zero, integer extremes, Inf/NaN). "
+                "Each input goes through Parse, Interpret, Unmarshal, ParseFile, InterpretFile, UnmarshalFile in a child process with a 10 s watchdog: a panic (recovered or process death) "
+                "or a hang is a violation. Non-trivial = >= 2 bytes / every scaled case; distinct by input.")
+    run.assumptions += ["bounded time is a 10 s watchdog per input, not a proof"]
+    q = run.quick
+    run.gen_replay("Gen_Total", cfg(constants=dict(Scope="bytes", MaxLen=3 if q else 4), invariants=("Emit",)), ["replay-total"], "C06:bytes")
+    run.gen_replay("Gen_Total", cfg(constants=dict(Scope="literals", MaxLen=1), invariants=("Emit",)), ["replay-total"], "C06:literals")
+    run.gen_replay("Gen_Total", cfg(constants=dict(Scope="damage", MaxLen=1), invariants=("Emit",)), ["replay-total"], "C06:damage")
+    run.gen_replay("Gen_Total", cfg(constants=dict(Scope="scale", MaxLen=1), invariants=("Emit",)), ["replay-total"], "C06:scale")
+    run.gen_replay("Gen_Gram", gen_cfg(dict(Scope="all", MaxLen=3)), ["replay-total"], "C06:tokens")
+    run.gen_replay("Gen_Gram", gen_cfg(dict(Scope="viable", MaxLen=3 if q else 4)), ["replay-total"], "C06:mutations")
+    run.exhaustive = True
+
+
 # ------------------------------------------------------------------------------------------------ C07
 ALPHA18 = "{97, 49, 48, 120, 46, 101, 34, 92, 61, 33, 45, 62, 32, 10, 35, 194, 160, 36}"
 
@@ -474,6 +493,7 @@ CHECKS = {
     "C03": (c03, "model_checking"),
     "C04": (c04, "model_checking"),
     "C05": (c05, "model_checking"),
+    "C06": (c06, "model_checking"),
     "C07": (c07, "model_checking"),
     "C08": (c08, "model_checking"),
     "C09": (c09, "model_checking"),
